@@ -1,0 +1,6 @@
+//go:build !verif
+
+package tsm1
+
+// verifEncodeSorted is only reachable in builds with the "verif" tag.
+func (w *WriteWALEntry) verifEncodeSorted(dst []byte) ([]byte, error) { return nil, nil }
